@@ -98,7 +98,7 @@ stop := http.S.serve(
 """
 
 
-def http_phase(rng, nreq, blocking=False):
+def http_phase(rng, nreq, blocking=False, scoped=False):
     """the scenario the property names: handlers of the HTTP server module running concurrently with each other and with the main script"""
     t = str(rng.randint(0, 10**6))
     reqs = []
@@ -125,7 +125,7 @@ def http_phase(rng, nreq, blocking=False):
     script = HTTP_SCRIPT % (t, t, t, t)
     if blocking:          # Server.serve without background: the call never returns, handlers still run on goroutines of their own
         script = script.replace("stop := http.S.serve(", "http.S.serve(").replace("background: true, ", "")
-    return {"script": script, "requests": reqs, "main": main, "pre": f"ga{t} := 0; gb{t} := []; gc{t} := 0", "clients": 8, "blocking": blocking}
+    return {"script": script, "requests": reqs, "main": main, "pre": f"ga{t} := 0; gb{t} := []; gc{t} := 0", "clients": 8, "blocking": blocking, "scoped": scoped}
 
 
 def top_frame(frames):
@@ -227,7 +227,9 @@ def run():
         progs = programs(ck.rng, ngor, 10)
         http = http_phase(ck.rng, 200 if thorough else 80)
         http2 = http_phase(ck.rng, 200 if thorough else 80, blocking=True)
-        resp, reports = pvlib.run_race_driver({"n": ngor, "progs": progs, "rounds": rounds, "http": http, "http2": http2})
+        # the same server started by a script whose top level is a scope of its own (an imported module, a file run by `pangaea test`)
+        http3 = http_phase(ck.rng, 200 if thorough else 80, scoped=True)
+        resp, reports = pvlib.run_race_driver({"n": ngor, "progs": progs, "rounds": rounds, "http": http, "http2": http2, "http3": http3})
         if resp.get("end") != "ok":
             end = resp.get("end", "")
             if "fatal error: concurrent map" in end:      # the Go runtime's own detection of unsynchronised map access: the property's fault itself
@@ -255,11 +257,14 @@ def run():
         h2 = resp.get("http2") or {}
         if not str(h2.get("start", "")).startswith("val:"):
             raise pvlib.Broken(f"the blocking-serve HTTP phase did not run: start={h2.get('start')!r}")
-        for hh_, hq in ((h, http), (h2, http2)):
+        h3 = resp.get("http3") or {}
+        if not str(h3.get("start", "")).startswith("val:") or not str(h3.get("stop", "")).startswith("val:"):
+            raise pvlib.Broken(f"the scoped-script HTTP phase did not run: start={h3.get('start')!r} stop={h3.get('stop')!r}")
+        for hh_, hq in ((h, http), (h2, http2), (h3, http3)):
             for k, (a, b) in enumerate(zip(hh_["conc"], hh_["ref"])):
                 if a != b:
                     rows.append({"nproc": 0, "g": 1, "ev": "ResultDiffers", "tab": f"http request {k}", "var": "", "report": [json.dumps(hq["requests"][k]), [a], b]})
-        nrace += len(rounds) * ngor + len(progs) + 2 * (len(http["requests"]) + len(http["main"]))
+        nrace += len(rounds) * ngor + len(progs) + 3 * (len(http["requests"]) + len(http["main"]))
         if len(rows) > 1:
             res = run_tlc("Trace_C20", files={"c20.ndjson": ndjson([{k: v for k, v in r.items() if k != "report"} for r in rows])}, workers=1, timeout_s=600, prefix=("V ",))
             ck.add_tlc(res, f"Trace_C20 race channel n={ngor}")
@@ -282,7 +287,7 @@ def run():
                       "(symbol actually interned under the write lock); second channel: the production build under the Go race detector, "
                       "barrier rounds (all goroutines evaluate the same program at once: calls with 9..40+ arguments, the same symbol converted "
                       "back and hashed, the same / different new symbols interned at once, JSON keys, keywords, run-time symbols, shared "
-                      "built-in objects), then the random programs, then two real servers of the http module (serveBackground and the blocking serve) each answering 80 (thorough 200) requests from 8 clients (new header / query / JSON names, evalEnv in handlers) while the main script goes on; each race report in the interpreter's packages is an Unsync event, "
+                      "built-in objects), then the random programs, then three real servers of the http module (serveBackground, the blocking serve, and serveBackground from a script whose top level is a scope of its own - a module, a test file - which goes on assigning the variables its handlers read) each answering 80 (thorough 200) requests from 8 clients (new header / query / JSON names, evalEnv in handlers) while the main script goes on; each race report in the interpreter's packages is an Unsync event, "
                       "which PanLockset never enables")
     ck.assumptions = ["events are emitted by build-time auto-instrumentation of package object (harness/cmd/hookgen) at statement "
                       "granularity; only package-level variables declared in object/hashtable.go are tracked",
